@@ -3,6 +3,7 @@ package gobeansdb
 import (
 	"errors"
 	"fmt"
+	"math"
 	"sync"
 
 	"github.com/douban/gobeansdb/cmem"
@@ -49,8 +50,9 @@ func (s *StorageClient) Set(key string, item *mc.Item, noreply bool) (bool, erro
 	if !store.IsValidKeyString(key) {
 		return false, nil
 	}
-	if item.Exptime < 0 {
-		// the exptime field carries the revision: negative revisions are reserved for deletes
+	if item.Exptime < 0 || item.Exptime > math.MaxInt32 {
+		// the exptime field carries the revision: negative revisions (also after truncation to 32 bits)
+		// are reserved for deletes
 		return false, nil
 	}
 	ki := s.prepare(key, false)
